@@ -96,7 +96,7 @@ def showI (i : Int) : String := toString i
 def strs (l : List (List Char)) : String := joinWith "." (l.map String.ofList)
 
 def canonInst (i : Inst) : String :=
-  s!"I{showI i.destNum}/{showI i.srcNum}/{showI i.pc}:{showI i.mask}:{strs i.dst}:{strs i.src}:{if i.hasOp then 1 else 0}:" ++
+  s!"I{showI i.destNum}/{showI i.srcNum}/{showI i.pc}:{showI i.mask}:{strs i.dst}:{strs i.src}:{match i.op with | none => "-" | some o => String.ofList o}:" ++
   s!"{showI i.width}:{showI i.compress}:{showI i.addr}:{showI i.suffix1}:{joinWith "." (i.suffix2.map showI)}:{showI i.imm}"
 
 def canonFault : Fault → String
@@ -118,11 +118,11 @@ def handle (line : String) : String :=
     | _ => "bad"
   else if line.startsWith "c20 parse" then
     let body := (line.drop 10).toString
-    match parseBody false ((body.splitOn "|").map String.toList) with
+    match parseBody false true ((body.splitOn "|").map String.toList) with
     | .ok ts => canonTBs ts
     | .error f => canonFault f
   else if line.startsWith "c20 inst" then
-    match extractInst false (line.drop 9).toString.toList with
+    match extractInst false true (line.drop 9).toString.toList with
     | .ok i => canonInst i
     | .error f => canonFault f
   else "bad"
